@@ -16,11 +16,19 @@ def suite():
         except Exception: continue
         if e.get('Action') == 'pass' and e.get('Test'): got.add(e['Package'] + '::' + e['Test'])
     return sorted(BASE - got), len(got - BASE)
-ids = sys.argv[2:] or sorted({p.split('/')[3] + '-' + p.split('/')[5] for p in glob.glob('/tmp/mut/C*/out/m*/rebase.json')})
+ROOT = os.environ.get('SEED_ROOT', '/tmp/mut')
+OFFSET = int(os.environ.get('SEED_OFFSET', '0'))
+ids = sys.argv[2:] or sorted({p.split('/')[-4] + '-' + p.split('/')[-2] for p in glob.glob(ROOT + '/C*/out/m*/meta.json')})
 for sid in ids:
     prop, mk = sid.split('-')
-    d = f'/tmp/mut/{prop}/out/{mk}'
-    rb = json.load(open(d + '/rebase.json')); meta = json.load(open(d + '/meta.json'))
+    d = f'{ROOT}/{prop}/out/{mk}'
+    meta = json.load(open(d + '/meta.json'))
+    if os.path.exists(d + '/rebase.json'):
+        rb = json.load(open(d + '/rebase.json'))
+    else:
+        rb = {'applied_unchanged': True, 'demo_file': 'demo_test.go', 'demo_cmd': str(meta.get('demo_location', '')), 'notes': None}
+        shutil.copy(d + '/patch.diff', d + '/patch.rebased.diff')
+    sid = f'{prop}-m{int(mk[1:]) + OFFSET}'
     demo = d + '/' + (rb.get('demo_file') or 'demo_test.go')
     m = re.search(r'\./([A-Za-z0-9_/]+?)/?(\s|$)', rb.get('demo_cmd', ''))
     pkg = m.group(1) if m else '.'
